@@ -11,6 +11,9 @@ DEFAULT = {
 REVERT = {"12105e7": ["C20"], "51f7c5b": ["C14", "C05"], "68c531e": ["C15"], "087feea": ["C20"], "745a4ef": ["C20"], "2159c02": ["C13", "C12"],
           "f2f2650": ["C08", "C01"], "5dedb9b": ["C08"], "d9a3c32": ["C08"], "8d6dc1d": ["C15", "C09", "C08"],
           "757c07d": ["C08"], "f0fc689": ["C14"], "3581ec3": ["C14"], "1ab53b3": ["C17"], "124adb2": ["C14"], "fb3f760": ["C15", "C03", "C01"]}
+OVERRIDE = {"w6_C02": ["C02", "C03", "C04"], "w6_C03": ["C03", "C05"], "w6_C04": ["C04", "C02"], "w6_C17": ["C17", "C10"], "w6_C18": ["C18", "C01"]}
+# changes to translated sources: the Coq stage (regenerated PySrc*.v + proofs) is part of the detection
+WITH_COQ = {"w6_C02"}
 def sh(cmd, **kw):
     return subprocess.run(cmd, shell=True, capture_output=True, text=True, errors="replace", **kw)
 assert sh("git -C /repo status --short").stdout.strip() == "", "/repo not clean"
@@ -26,19 +29,21 @@ for sid in ids:
         checks = REVERT.get(sid[len("revert_"):], ["C08", "C15"])
     else:
         base = sid.split("_")[-1]                 # w3_C05 -> C05
-        checks = DEFAULT.get(base, [base])
+        checks = OVERRIDE.get(sid) or DEFAULT.get(base, [base])
     if sh(f"git -C /repo apply {SEEDED}/{sid}/patch.diff").returncode != 0:
         rows.append({"seeded": sid, "error": "patch does not apply"}); continue
     try:
         for c in checks:
             t = time.time()
-            p = sh(f"cd /verif && timeout 1500 ./check {c} --no-coq")
+            p = sh(f"cd /verif && timeout 1500 ./check {c} " + ("" if sid in WITH_COQ else "--no-coq"))
             lines = [l for l in p.stdout.splitlines() if l.startswith("VIOLATION")]
             rows.append({"seeded": sid, "check": c, "exit": p.returncode, "violations": len(lines),
                          "with_failing_input": sum(1 for l in lines if not l.endswith("no-failing-input-found")), "wall_s": round(time.time() - t, 1)})
             print(rows[-1], flush=True)
     finally:
         sh("git -C /repo checkout -- .")
+        if sid in WITH_COQ:
+            sh("cd /verif && python3 tools/py2coq.py && make -C coq -j16")
 if only:                                       # partial run: merge into the existing matrix
     try:
         old = json.load(open("/verif/seeded/DETECTION.json"))
